@@ -823,6 +823,23 @@ func runC12(r *Run) {
 	data := []interface{}{S1{A: 1, B: "aaa", L: []string{"a", "foo"}, M: map[string]int{"k1": 1}}, &S1{A: 2, B: ""}, S2{LS: []S1{{A: 1}, {B: "x"}}, X: S1{B: "q"}}, S3{LI: []interface{}{1, nil, "a"}}, map[string]interface{}{"A": 1, "B": "ab", "L": []interface{}{"o"}}, nil,
 		map[string]interface{}{"gate": "A", "a": map[string]interface{}{"b": map[string]interface{}{"c": []interface{}{"y", "x", "z"}, "m": map[string]interface{}{"p": 1, "q": 2}}}},
 		map[string]interface{}{"gate": "B", "a": map[string]interface{}{"b": map[string]interface{}{"c": map[string]interface{}{"d": map[string]interface{}{"e": []int{3, 2, 1}}}}}}}
+	// quantified collections below 1..17 path segments, all in one document
+	{
+		var cur interface{} = map[string]interface{}{"L": []interface{}{"y", "x"}}
+		for i := 17; i >= 1; i-- {
+			cur = map[string]interface{}{fmt.Sprintf("s%d", i): cur, "L": []interface{}{"y", "x", i}}
+		}
+		chain := cur.(map[string]interface{})
+		chain["gate"] = "A"
+		data = append(data, chain)
+		prefix := ""
+		for n := 1; n <= 17; n++ {
+			if n != 3 && n != 5 {
+				exprs = append(exprs, "any "+prefix+"L as v { gate == A and v == x }")
+			}
+			prefix += fmt.Sprintf("s%d.", n)
+		}
+	}
 	calls := 20
 	if r.Tier == "thorough" {
 		calls = 200
